@@ -118,6 +118,70 @@ fn histories(part: usize, parts: usize) {
 #[test] fn group_scoping_histories_3() { histories(3, 4); }
 
 
+// ---------------------------------------------------------------- the other variable kinds and arithmetic that changes nothing
+/// \dimen and \skip registers next to \count (each kind has its own save-stack slot), and \advance / \multiply / \divide
+/// whose result EQUALS the old value (by 0, by 1): locally a no-op, but with \global the value must still become global.
+/// Every history of <= 3 operations, of 4 starting with a group, of 5 starting with two nested groups.
+#[test]
+fn variable_kinds_and_noop_arithmetic() {
+    std::panic::set_hook(Box::new(|_| {}));
+    #[derive(Clone, Copy, PartialEq, Debug)]
+    enum V { Begin, End, Count(bool, i32), Dimen(bool, i32), Skip(bool, i32), AdvCount(bool, i32), MulCount(bool, i32), AdvDimen(bool, i32), DivDimen(bool, i32), AdvSkip(bool, i32), MulSkip(bool, i32) }
+    let g = |b: bool| if b { "\\global" } else { "" };
+    let tex = |o: V| match o {
+        V::Begin => "{".to_string(), V::End => "}".to_string(),
+        V::Count(gl, v) => format!("{}\\count1={v} ", g(gl)), V::Dimen(gl, v) => format!("{}\\dimen1={v}pt ", g(gl)), V::Skip(gl, v) => format!("{}\\skip1={v}pt\\relax ", g(gl)),
+        V::AdvCount(gl, v) => format!("{}\\advance\\count1 by {v} ", g(gl)), V::MulCount(gl, v) => format!("{}\\multiply\\count1 by {v} ", g(gl)),
+        V::AdvDimen(gl, v) => format!("{}\\advance\\dimen1 by {v}pt ", g(gl)), V::DivDimen(gl, v) => format!("{}\\divide\\dimen1 by {v} ", g(gl)),
+        V::AdvSkip(gl, v) => format!("{}\\advance\\skip1 by {v}pt\\relax ", g(gl)), V::MulSkip(gl, v) => format!("{}\\multiply\\skip1 by {v} ", g(gl)),
+    };
+    #[derive(Clone, PartialEq, Debug)]
+    struct S3 { c: i32, d: i32, s: i32 }
+    fn set3(cur: &mut S3, saved: &mut Vec<S3>, global: bool, f: impl Fn(&mut S3)) { f(cur); if global { for s in saved.iter_mut() { f(s); } } }
+    let apply3 = |cur: &mut S3, saved: &mut Vec<S3>, o: V| match o {
+        V::Begin => saved.push(cur.clone()),
+        V::End => { if let Some(s) = saved.pop() { *cur = s } }
+        V::Count(gl, v) => set3(cur, saved, gl, |s| s.c = v), V::Dimen(gl, v) => set3(cur, saved, gl, |s| s.d = v), V::Skip(gl, v) => set3(cur, saved, gl, |s| s.s = v),
+        V::AdvCount(gl, v) => { let n = cur.c + v; set3(cur, saved, gl, |s| s.c = n) } V::MulCount(gl, v) => { let n = cur.c * v; set3(cur, saved, gl, |s| s.c = n) }
+        V::AdvDimen(gl, v) => { let n = cur.d + v; set3(cur, saved, gl, |s| s.d = n) } V::DivDimen(gl, v) => { let n = cur.d / v; set3(cur, saved, gl, |s| s.d = n) }
+        V::AdvSkip(gl, v) => { let n = cur.s + v; set3(cur, saved, gl, |s| s.s = n) } V::MulSkip(gl, v) => { let n = cur.s * v; set3(cur, saved, gl, |s| s.s = n) }
+    };
+    let ops = [V::Begin, V::End, V::Count(false, 5), V::Dimen(false, 5), V::Dimen(true, 6), V::Skip(false, 7), V::Skip(true, 8),
+        V::AdvCount(true, 0), V::MulCount(true, 1), V::AdvDimen(false, 2), V::AdvDimen(true, 0), V::DivDimen(true, 1), V::AdvSkip(false, 2), V::AdvSkip(true, 0), V::MulSkip(true, 1), V::AdvCount(false, 0)];
+    const READ3: &str = "[\\the\\count1,\\the\\dimen1,\\the\\skip1]";
+    let expect3 = |s: &S3| format!("[{},{}.0pt,{}.0pt]", s.c, s.d, s.s);
+    let n = ops.len();
+    let mut cases = 0u64;
+    for len in 1..=5usize {
+        let mut idx = vec![0usize; len];
+        'hist: loop {
+            let h: Vec<V> = idx.iter().map(|&i| ops[i]).collect();
+            let mut ok = !((len == 4 && h[0] != V::Begin) || (len == 5 && !(h[0] == V::Begin && h[1] == V::Begin)));
+            let mut depth = 0i32;
+            for op in &h { if *op == V::Begin { depth += 1 } if *op == V::End { depth -= 1; if depth < 0 { ok = false } } }
+            if ok {
+                let (mut cur, mut saved) = (S3 { c: 1, d: 1, s: 1 }, vec![]);
+                let mut src = String::from("\\count1=1 \\dimen1=1pt \\skip1=1pt\\relax ");
+                let mut want = String::new();
+                for op in &h { apply3(&mut cur, &mut saved, *op); src.push_str(&tex(*op)); src.push_str(READ3); want.push_str(&expect3(&cur)); }
+                while !saved.is_empty() { apply3(&mut cur, &mut saved, V::End); src.push('}'); src.push_str(READ3); want.push_str(&expect3(&cur)); }
+                cases += 1;
+                let got = run(&src);
+                let good = matches!(&got, Some(Ok(out)) if out.split_whitespace().collect::<String>() == want);
+                if !good {
+                    let obs = match &got { None => "panic".to_string(), Some(Err(_)) => "error".to_string(), Some(Ok(o)) => o.split_whitespace().collect::<String>() };
+                    println!("WITNESS {{\"fn\": \"run\", \"unit_fns\": [\"update_save_stack\", \"set\", \"restore\", \"apply_to_variable\"], \"history\": \"{}\", \"observed\": \"{}\", \"expected\": \"{}\"}}",
+                        h.iter().map(|o| tex(*o)).collect::<String>().replace('\\', "\\\\").replace('"', "'"), obs.replace('"', "'").replace('\\', "/"), want);
+                    return;
+                }
+            }
+            let mut p = 0;
+            loop { if p == len { break 'hist; } idx[p] += 1; if idx[p] < n { break; } idx[p] = 0; p += 1; }
+        }
+    }
+    println!("STATS {{\"fn\": \"variable kinds / no-op arithmetic\", \"cases\": {cases}}}");
+}
+
 // ---------------------------------------------------------------- the current font (its save stack is inlined in VM::run_impl)
 /// every history of <= 6 steps over { {, }, three local font selectors, one \global font selector, a global register
 /// assignment }: the font that is current when the input ends (after closing every open group) against the model
